@@ -171,6 +171,38 @@ type File struct {
 	MapFirst   bool               `json:"map_first,omitempty"`
 	AutoVars   map[string]AutoVar `json:"autovars,omitempty"`
 	Switches   map[string]string  `json:"switches,omitempty"` // compile-time switches (-s)
+	// Consts are `const NAME = value` definitions written at the top of the file. Using a
+	// constant is the same as writing its (fully expanded) value.
+	Consts []ConstDef `json:"consts,omitempty"`
+}
+
+// ConstDef is one constant definition; Val holds its value tokens (already expanded).
+type ConstDef struct {
+	Name string   `json:"name"`
+	Val  []string `json:"val"`
+	Src  []string `json:"src,omitempty"` // as written, when defined from another constant
+}
+
+// Sub expands constants in a blank-separated token text.
+func (f *File) Sub(text string) string {
+	if len(f.Consts) == 0 {
+		return text
+	}
+	parts := strings.Fields(text)
+	changed := false
+	for i, p := range parts {
+		for _, c := range f.Consts {
+			if c.Name == p {
+				parts[i] = strings.Join(c.Val, " ")
+				changed = true
+				break
+			}
+		}
+	}
+	if !changed {
+		return text
+	}
+	return strings.Join(parts, " ")
 }
 
 // Selected returns the statements a poryswitch contributes under the file's switches:
@@ -230,6 +262,15 @@ func (p *printer) t(s ...string) { p.toks = append(p.toks, s...) }
 // Tokens renders the file as a list of lexemes.
 func (f *File) Tokens() []string {
 	p := &printer{}
+	for _, c := range f.Consts {
+		p.t("const", c.Name, "=")
+		if len(c.Src) > 0 {
+			p.t(c.Src...)
+		} else {
+			p.t(c.Val...)
+		}
+		p.t(NL)
+	}
 	if f.MapScripts != nil && f.MapFirst {
 		p.mapscripts(f.MapScripts)
 	}
